@@ -5,7 +5,10 @@
 // (actor/pools.go) and UnboundedMailbox.Dequeue's recycling of the previous sentinel, under a
 // controlled schedule.
 //
-//	ask | prog0 ; prog1 ; … | schedule
+//	ask <asis|fixed> | prog0 ; prog1 ; … | schedule
+//
+// `asis`: PID.Ask has an atomic site after its select (the late responseClosed.Store(true)), so an Ask is three
+// steps; `fixed`: it has none (fixes/C15-ask-no-late-store.diff), an Ask is two steps.
 //
 // A program is either a caller (ops a<k>: Ask with request id k, replies carry the id the target found
 // in the message) or the target's worker (ops h: dequeue one message and Response to it).
@@ -37,9 +40,11 @@ type caller struct {
 
 func run(line string) string {
 	parts := strings.Split(line, "|")
-	if len(parts) != 3 || strings.TrimSpace(parts[0]) != "ask" {
+	cfg := strings.Fields(parts[0])
+	if len(parts) != 3 || len(cfg) != 2 || cfg[0] != "ask" || (cfg[1] != "asis" && cfg[1] != "fixed") {
 		return "bad-case"
 	}
+	fixed := cfg[1] == "fixed"
 	var progs [][]string
 	for _, p := range strings.Split(parts[1], ";") {
 		progs = append(progs, strings.Fields(p))
@@ -135,7 +140,13 @@ func run(line string) string {
 				c.ch = actor.VerifC15Chan(actor.VerifC15LastEnqueued(target))
 				c.phase = 1
 			case 1:
-				c.phase = 2
+				if fixed {
+					c.phase = 0
+					c.deadline = false
+					c.ch = nil
+				} else {
+					c.phase = 2
+				}
 			case 2:
 				c.phase = 0
 				c.deadline = false
